@@ -1,5 +1,5 @@
 SPECIFICATION Spec
-CONSTANTS SelfNamed = FALSE Lean = FALSE DirSet = {1, 2, 3} MaxDefs = 2 Rich = FALSE Entry = "namespace" Bodies = {"ok","print"} AsFoundTwoObjects = FALSE AsFoundPrintPath = TRUE
+CONSTANTS SelfNamed = FALSE Lean = FALSE DirSet = {1, 2, 3} MaxDefs = 2 Rich = FALSE Entry = "namespace" Bodies = {"ok","print"} Dups = FALSE AsFoundTwoObjects = FALSE AsFoundPrintPath = TRUE
 INVARIANT ResolvesExactly
 INVARIANT BadReferenceFails
 INVARIANT AcyclicWhenOk
